@@ -340,6 +340,8 @@ where
     pub count: F<fn(List<E>) -> u64>,
     pub forpush: F<fn(List<E>, u64) -> u64>,
     pub find: F<fn(List<E>, E) -> u64>,
+    pub forrebind: F<fn(List<E>) -> u64>,
+    pub pluseq: F<fn(List<E>, List<E>) -> List<E>>,
 }
 
 pub fn helper_source() -> String {
@@ -385,6 +387,19 @@ fn find_{x}(l: List[{ty}], v: {ty}) -> u64 {{
         i = i + 1;
     }}
     i
+}}
+fn forrebind_{x}(l: List[{ty}]) -> u64 {{
+    let n = 0;
+    for x in l {{
+        l = [];
+        n = n + 1;
+    }}
+    n
+}}
+fn pluseq_{x}(a: List[{ty}], b: List[{ty}]) -> List[{ty}] {{
+    let r = a;
+    r += b;
+    r
 }}
 fn forpush_{x}(l: List[{ty}], n: u64) -> u64 {{
     let c = 0;
@@ -453,6 +468,8 @@ where
             count: g!("count"),
             forpush: g!("forpush"),
             find: g!("find"),
+            forrebind: g!("forrebind"),
+            pluseq: g!("pluseq"),
         }
     }
 }
@@ -740,7 +757,19 @@ where
                 }
                 None => Obs::Skipped,
             },
-            Op::IterConsume { h, alias, k } => match self.slots.get_mut(*h).and_then(|s| s.take()) {
+            Op::ForRebind { h } => match self.h(*h, script) {
+                Some(l) => Obs::Num(f.forrebind.call(l.own())),
+                None => Obs::Skipped,
+            },
+            Op::PlusAssign { a, b, dst } => match (self.h(*a, script), self.h(*b, script)) {
+                (Some(x), Some(y)) => {
+                    let r = f.pluseq.call(x.own(), y.own());
+                    self.set_slot(*dst, Some(r));
+                    Obs::Unit
+                }
+                _ => Obs::Skipped,
+            },
+            Op::IterConsume { h, alias, k, partial } => match self.slots.get_mut(*h).and_then(|s| s.take()) {
                 Some(l) => {
                     let mut it = l.into_iter();
                     let mut out: Vec<E> = Vec::new();
@@ -753,7 +782,12 @@ where
                     if let Some(s) = self.slots.get_mut(*alias) {
                         *s = None;
                     }
-                    out.extend(it);
+                    if *partial {
+                        // the iterator is dropped half-consumed
+                        drop(it);
+                    } else {
+                        out.extend(it);
+                    }
                     Obs::Vals(vals_to_m(out, &mut self.inner, "consuming into_iter"))
                 }
                 None => Obs::Skipped,
